@@ -473,7 +473,7 @@ class SNum(Sym):
         a, b = _coerce(_zt(o), self.t)
         if a.sort() == z3.IntSort():
             raise Inconclusive('floordiv by symbolic int divisor not modelled')
-        return mk(z3.ToReal(z3.ToInt(a / b)))
+        return sfloor(_divide(a, b))   # quotient symbol with its defining fact, then floor
 
     def __mod__(self, m):
         if not _supported(m):
@@ -558,7 +558,11 @@ class SNum(Sym):
             raise Inconclusive('index() of a symbolic real')
         return concretize(self.t)
 
-    __int__ = __index__
+    def __int__(self):
+        if self.is_int:
+            return concretize(self.t)
+        v = strunc_int(self)   # int() of a real truncates toward zero
+        return v if not isinstance(v, SNum) else concretize(v.t)
 
     def __hash__(self):
         return hash(self.__index__())
